@@ -355,6 +355,11 @@ Proof. exact private_variant_refuted_Z. Qed.
    configuration and runner.  The closed statements (all Section hypotheses explicit) are printed by Check. *)
 Definition C17_make_public_instruction_computes := @make_public_computes_gen.
 Definition C17_check_instruction_computes := @check_computes_prop.
+(* D22 (found by reading a seeded-change note, reproduced on the code, repaired in /repo): sa must be a CANONICAL scalar.  The
+   link theorems above speak about encodings [es a]; this one is about an arbitrary byte string sa: if reducing sa || 0^32
+   does not give sa back (bit 255 set -- which the base multiplication ignores -- or any value >= L), the check pushes 00
+   whatever the other inputs are. *)
+Definition C17_check_instruction_rejects_noncanonical_sa := @check_rejects_noncanonical.
 Definition C17_decrypt_instruction_computes := @decrypt_computes.
 Definition C17_instructions_adapter_checks := @adapter_instr_checks.
 Definition C17_instructions_adapter_decrypts_and_recovers := @adapter_instr_decrypts.
@@ -362,6 +367,7 @@ Definition C17_make_private_instruction_computes := @make_private_computes.
 Definition C17_private_instruction_check_iff := @private_instr_check_iff.
 Check C17_make_public_instruction_computes.
 Check C17_check_instruction_computes.
+Check C17_check_instruction_rejects_noncanonical_sa.
 Check C17_decrypt_instruction_computes.
 Check C17_instructions_adapter_checks.
 Check C17_instructions_adapter_decrypts_and_recovers.
@@ -378,6 +384,7 @@ Proof. exact bool_concrete_run. Qed.
 
 Print Assumptions C17_make_public_instruction_computes.
 Print Assumptions C17_check_instruction_computes.
+Print Assumptions C17_check_instruction_rejects_noncanonical_sa.
 Print Assumptions C17_decrypt_instruction_computes.
 Print Assumptions C17_instructions_adapter_checks.
 Print Assumptions C17_instructions_adapter_decrypts_and_recovers.
